@@ -502,7 +502,7 @@ func ruleL3(r *Report, onlyRoots func(string) bool) {
 	}
 	roots := map[string]*res{}
 	for _, rc := range L.Roots {
-		root := rc.Root
+		root := fnName(rc.Fn)
 		if onlyRoots != nil && !onlyRoots(root) {
 			continue
 		}
